@@ -5,29 +5,63 @@ package core
 
 // Contracts for package core (consumed by /verif/govc; comment-only file).
 
-//@ func Add
-//@   props C01
-//@   ensures (result.1 != nil) ==> result.0 == nil
+// Arithmetic on two reflect values (C01). Spec functions (spec/prelude.smt2): ncls = numeric class of a kind (1 signed,
+// 2 unsigned, 3 float), arithKind = kind of the result (float64 if a float operand, uint64 if both unsigned, else int64),
+// rvtof = operand converted to float64 (signed / unsigned / identity), w* = 64-bit wrapping ops, f* = IEEE float64 ops (RNE).
+// The signedness of mixed int/uint operations is derived from the code (reinterpretation of the 64 bits), the rest from C01.
+
+//@ func isIntKind
+//@   props C01 C20
+//@   ensures result == (hasPrefix(kind, "int") && kind != "interface")
 //@   modifies nothing
-//@   trusted arithmetic contracts pending
+//@   nopanic
+
+//@ func Add
+//@   props C01 C20
+//@   arith bv
+//@   ensures [C01] typed: (result.1 == nil) <==> ((ncls(rv_kind(a)) != 0 && ncls(rv_kind(b)) != 0) || (rv_kind(a) == 24 && rv_kind(b) == 24))
+//@   ensures [C01] failnil: result.1 != nil ==> result.0 == nil
+//@   ensures [C01] strval: rv_kind(a) == 24 && rv_kind(b) == 24 ==> result.0 != nil && ikind(result.0) == 24 && istr(result.0) == strcat(rv_str(a), rv_str(b))
+//@   ensures [C01] kind: ncls(rv_kind(a)) != 0 && ncls(rv_kind(b)) != 0 ==> result.0 != nil && ikind(result.0) == arithKind(rv_kind(a), rv_kind(b))
+//@   ensures [C01] intval: ncls(rv_kind(a)) != 0 && ncls(rv_kind(b)) != 0 && arithKind(rv_kind(a), rv_kind(b)) != 14 ==> ibits(result.0) == wadd(rv_bits(a), rv_bits(b))
+//@   ensures [C01] floatval: ncls(rv_kind(a)) != 0 && ncls(rv_kind(b)) != 0 && arithKind(rv_kind(a), rv_kind(b)) == 14 ==> fsame(ifloat(result.0), fadd(rvtof(a), rvtof(b)))
+//@   modifies nothing
+//@   nopanic
 
 //@ func Sub
-//@   props C01
-//@   ensures (result.1 != nil) ==> result.0 == nil
+//@   props C01 C20
+//@   arith bv
+//@   ensures [C01] typed: (result.1 == nil) <==> (ncls(rv_kind(a)) != 0 && ncls(rv_kind(b)) != 0)
+//@   ensures [C01] failnil: result.1 != nil ==> result.0 == nil
+//@   ensures [C01] kind: result.1 == nil ==> result.0 != nil && ikind(result.0) == arithKind(rv_kind(a), rv_kind(b))
+//@   ensures [C01] intval: result.1 == nil && arithKind(rv_kind(a), rv_kind(b)) != 14 ==> ibits(result.0) == wsub(rv_bits(a), rv_bits(b))
+//@   ensures [C01] floatval: result.1 == nil && arithKind(rv_kind(a), rv_kind(b)) == 14 ==> fsame(ifloat(result.0), fsub(rvtof(a), rvtof(b)))
 //@   modifies nothing
-//@   trusted arithmetic contracts pending
+//@   nopanic
 
 //@ func Mul
-//@   props C01
-//@   ensures (result.1 != nil) ==> result.0 == nil
+//@   props C01 C20
+//@   arith bv
+//@   ensures [C01] typed: (result.1 == nil) <==> (ncls(rv_kind(a)) != 0 && ncls(rv_kind(b)) != 0)
+//@   ensures [C01] failnil: result.1 != nil ==> result.0 == nil
+//@   ensures [C01] kind: result.1 == nil ==> result.0 != nil && ikind(result.0) == arithKind(rv_kind(a), rv_kind(b))
+//@   ensures [C01] intval: result.1 == nil && arithKind(rv_kind(a), rv_kind(b)) != 14 ==> ibits(result.0) == wmul(rv_bits(a), rv_bits(b))
+//@   ensures [C01] floatval: result.1 == nil && arithKind(rv_kind(a), rv_kind(b)) == 14 ==> fsame(ifloat(result.0), fmul(rvtof(a), rvtof(b)))
 //@   modifies nothing
-//@   trusted arithmetic contracts pending
+//@   nopanic
 
+// division: a zero divisor of any numeric class is an error; integer division truncates (signed unless both operands are unsigned)
 //@ func Div
-//@   props C01
-//@   ensures (result.1 != nil) ==> result.0 == nil
+//@   props C01 C20
+//@   arith bv
+//@   ensures [C01] typed: (result.1 == nil) <==> (ncls(rv_kind(a)) != 0 && ncls(rv_kind(b)) != 0 && !ite(ncls(rv_kind(b)) == 3, fzero(rv_f64(b)), wzero(rv_bits(b))))
+//@   ensures [C01] failnil: result.1 != nil ==> result.0 == nil
+//@   ensures [C01] kind: result.1 == nil ==> result.0 != nil && ikind(result.0) == arithKind(rv_kind(a), rv_kind(b))
+//@   ensures [C01] intval: result.1 == nil && arithKind(rv_kind(a), rv_kind(b)) == 6 ==> ibits(result.0) == wsdiv(rv_bits(a), rv_bits(b))
+//@   ensures [C01] uintval: result.1 == nil && arithKind(rv_kind(a), rv_kind(b)) == 11 ==> ibits(result.0) == wudiv(rv_bits(a), rv_bits(b))
+//@   ensures [C01] floatval: result.1 == nil && arithKind(rv_kind(a), rv_kind(b)) == 14 ==> fsame(ifloat(result.0), fdiv(rvtof(a), rvtof(b)))
 //@   modifies nothing
-//@   trusted arithmetic contracts pending
+//@   nopanic
 
 //@ func GetStructAttributeValue
 //@   props C03
